@@ -39,6 +39,12 @@ floating-point keys (+0.0 / -0.0, NaN), undecided for class types (FlatMap<doubl
 may be a bool or an integer: set by a non-zero constant, or raised by ++ only when it cannot wrap (64-bit) - an unsaturated
 narrower counter is a violation.  setParam: `data = Any(); data = v` (release, then build) is recognised wrong; other shapes
 with several assignments are undecided.
+A hand-unrolled / counted linear search (counter = distance(first, last), main loop by a constant step, switch on the rest) is
+decided by running its CFG for every element count up to three times the largest constant the counter is compared with (larger
+counts reduce to these because the counter only meets constants): if every position 0..N-1 is compared once, in order, it is the
+find_if it implements; if positions are skipped or lie outside the range it is reported as such (search-skips-elements).
+getParam: a typed read guarded by a test of another member of the parameter (a cached type) instead of the stored value is a
+violation; a test of the stored value in another form is undecided.  removeParam must erase the entry it found.
 Lookup predicates: `a.compare(b) == 0` is `a == b`; a strncmp over the length of one operand is a prefix comparison
 (recognised wrong); predicates built from other calls are undecided.  setParam leaves the query flag of the parameter
 it writes alone.
@@ -164,6 +170,8 @@ def has_unknown(nf):
     def bad(t):
         if not t or not isinstance(t[0], str):
             return False
+        if t[0] in ('var', 'opaque', 'lambda', 'defarg', 'cond', 'binop', 'cast', 'void'):
+            return True
         if t[0] == 'call':
             return not (t[1] in VOCAB_CALLS or base_name(t[1]) in (ANY + '::get', ANY + '::is'))
         return t[0] not in VOCAB_HEADS and not (len(t) <= 3 and all(not isinstance(x, tuple) for x in t))
@@ -231,7 +239,7 @@ class Seq:
                 out.append(('member', ev.how, ev))
             elif ev.kind == 'mutate' and ev.place is not None and contains(ev.place, S):
                 out.append(('member-sub', ev.how, ev))
-            elif ev.kind == 'store' and ev.nf is not None and contains(ev.nf, S):
+            elif ev.kind == 'store' and ev.nf is not None and contains(ev.nf, S) and not (ev.place is not None and ev.place[0] == 'var'):
                 out.append(('store', '=', ev))
             elif ev.kind == 'call' and last(ev.how or '') == 'operator=' and ev.place is not None and self.is_elem(ev.place):
                 out.append(('store', 'operator=', ev))      # assignment to a whole element of class type
@@ -403,6 +411,11 @@ def check_sequence_rules(ctx, tu, se, seq, fns, file_of, tag, counts):
                         ctx.ok(R1, inst, '`%s` into a sequence just tested to be empty' % what, l)
                         counts['insert_ok'] += 1
                         continue
+                    if lc is None and any(contains(unver(c_), S) for c_, _p, _n in p.conds[:ev.conds_n]):
+                        ctx.undecided(R1, inst, '`%s` is preceded by tests of the sequence (%s) that are not recognised as a failed lookup of the inserted key'
+                                      % (what, ', '.join(show(c_) for c_, _p, _n in p.conds[:ev.conds_n] if contains(unver(c_), S))[:200]), l)
+                        viol = True
+                        continue
                     if lc is None:
                         ctx.violation(R1, inst, '`%s` is not preceded by a failed lookup (find_if over the whole sequence == end) on this path: '
                                       'an existing key would be stored twice' % what, l, key='%s|%s|%s|insert-without-failed-lookup' % (R1, file, pname),
@@ -542,17 +555,29 @@ def check_sequence_rules(ctx, tu, se, seq, fns, file_of, tag, counts):
 # ============================================================================================
 #  FlatMap: R-C10-3, R-C10-4
 # ============================================================================================
+def canon_calls(nf):
+    """drop the `{template arguments}` of call names: overloads differing in constness instantiate helpers for iterator /
+    const_iterator"""
+    if isinstance(nf, frozenset):
+        return frozenset(canon_calls(x) for x in nf)
+    if isinstance(nf, tuple):
+        if len(nf) > 1 and nf[0] == 'call' and isinstance(nf[1], str):
+            return ('call', base_name(nf[1])) + tuple(canon_calls(x) for x in nf[2:])
+        return tuple(canon_calls(x) for x in nf)
+    return nf
+
+
 def summary_sig(se, seq, f):
     """hashable signature of a function's behaviour: per path (conditions, sequence effects, result)"""
     paths = se.paths(f)
     sig = set()
     for p in paths:
         conds = frozenset((unver(c), pol) for c, pol, _ in p.conds)
-        effs = tuple((k, n, tuple(unver(a) for a in (ev.value or ())) if not (k == 'store' and ev.kind == 'store') else (unver(ev.nf), unver(ev.value)))
+        effs = tuple((k, base_name(n), tuple(unver(a) for a in (ev.value or ())) if not (k == 'store' and ev.kind == 'store') else (unver(ev.nf), unver(ev.value)))
                      for k, n, ev in seq.seq_events(p, False) if not (k == 'algo' and n in ALGO_READ))
         t = p.term
         res = (t[0], unver(t[1]) if t[0] == 'return' and t[1] is not None else (t[1] if t[0] == 'throw' else None))
-        sig.add((conds, effs, res))
+        sig.add(canon_calls((conds, effs, res)))
     return frozenset(sig)
 
 
@@ -568,6 +593,14 @@ def sig_show(sig):
 
 def canon_method(name):
     return {'cbegin': 'begin', 'cend': 'end', 'crbegin': 'rbegin', 'crend': 'rend'}.get(name, name)
+
+
+def report_search_defects(ctx, tu, se, rule, tag):
+    """a helper the lookups go through was recognised as a counted / unrolled linear search that does not compare every element"""
+    for fid, (fn, text) in sorted(se.search_defects.items()):
+        ctx.violation(rule, inst_name(fn) + tag, 'the search helper does not look at every element: %s. A key stored there is reported absent '
+                      '(contains false, at() throws) and operator[] stores it a second time' % text, tu.fn_loc(fn),
+                      key='%s|%s|%s|search-skips-elements' % (rule, tu.fn_file(fn), pattern_name(tu, fn)))
 
 
 def check_flatmap(ctx, tu, tag=''):
@@ -622,8 +655,12 @@ def check_flatmap(ctx, tu, tag=''):
 
             def no_effects(p, what):
                 evs = [x for x in seq.seq_events(p, bool(f.get('const'))) if not (x[0] == 'algo' and x[1] in ALGO_READ)]
-                if evs:
-                    probs.append(('unexpected-mutation', '%s modifies the sequence: `%s`' % (what, tu.show(evs[0][2].node))))
+                known = [x for x in evs if not (x[0] == 'algo' and x[1] not in ALGO_COMPACT and x[1] not in ALGO_REORDER)]
+                if known:
+                    probs.append(('unexpected-mutation', '%s modifies the sequence: `%s`' % (what, tu.show(known[0][2].node))))
+                elif evs:
+                    und.append(('unexpected-mutation', '%s hands mutable iterators of the sequence to `%s`, whose effect is not known'
+                                % (what, tu.show(evs[0][2].node))))
 
             if name == 'at':
                 n3 += 1
@@ -634,7 +671,7 @@ def check_flatmap(ctx, tu, tag=''):
                         msg = ('a path reaches `%s` without comparing the lookup result with end()'
                                % (p.term[0] + (' ' + show(p.term[1]) if p.term[0] == 'return' and p.term[1] is not None else '')))
                         # recognised wrong: an element of the sequence (the lookup result, back(), [i]) is used untested
-                        if rv is not None and not has_unknown(rv) and contains(rv, S):
+                        if rv is not None and not has_unknown(rv) and contains(rv, S) and not any(contains(unver(c_), S) for c_, _p, _n in p.conds):
                             probs.append(('unguarded', msg))
                         else:
                             und.append(('unguarded', msg))
@@ -660,7 +697,7 @@ def check_flatmap(ctx, tu, tag=''):
                     lc = seq.lookup_cond(p)
                     if lc is None:
                         rv = unver(p.term[1]) if p.term[0] == 'return' and p.term[1] is not None else None
-                        if rv is not None and not has_unknown(rv) and contains(rv, S):
+                        if rv is not None and not has_unknown(rv) and contains(rv, S) and not any(contains(unver(c_), S) for c_, _p, _n in p.conds):
                             probs.append(('unguarded', 'a path returns `%s` without comparing the lookup result with end()' % show(rv)))
                         else:
                             und.append(('unguarded', 'a path does not compare the lookup result with end()'))
@@ -857,12 +894,15 @@ def check_flatmap(ctx, tu, tag=''):
                 continue
             base = sigs[0]
             diff = [x for x in sigs[1:] if x[1] != base[1]]
-            if diff:
+            if diff and any(find_all(tuple(sg), lambda t: t and t[0] in ('var', 'opaque')) for _f, sg in sigs):
+                ctx.undecided(R4, inst, 'the summaries contain local state that cannot be compared across the overloads', tu.fn_loc(fs[0]))
+            elif diff:
                 g = diff[0]
                 ctx.violation(R4, inst, '`%s` and `%s` disagree: {%s} vs {%s}' % (inst_name(base[0]), inst_name(g[0]), sig_show(base[1])[:300], sig_show(g[1])[:300]),
                               tu.fn_loc(g[0]), key='%s|%s|%s::%s|siblings-disagree' % (R4, file, short(r['q']), name))
             else:
                 ctx.ok(R4, inst, 'identical summaries: %s' % sig_show(base[1])[:200], tu.fn_loc(fs[0]))
+    report_search_defects(ctx, tu, se, 'R-C10-3', tag)
     return dict(nrec=nrec, n3=n3, n4=n4, counts=counts)
 
 
@@ -1126,6 +1166,18 @@ def check_paramobj(ctx, tu, tag=''):
                             ('wrong-result', 'a successful typed read returns `%s` instead of data.get<%s>()' % (show(rv) if rv else p.term[0], T)))
                 else:
                     why = 'the parameter may be null' if not nonnull else 'its stored type was not tested to be exactly %s' % T
+                    if nonnull and (qstores or uses_get):
+                        # what did the path test instead of data.is<T>() ?
+                        tests = [unver(c_) for c_, _p, _n in p.conds if contains(unver(c_), obj)]
+                        on_value = [c_ for c_ in tests if contains(c_, ('field', obj, DATA)) and c_ != is_t]
+                        others = sorted({x[2] for c_ in tests for x in find_all(c_, lambda t: t[0] == 'field' and len(t) >= 3 and t[1] == obj) if x[2] != DATA})
+                        if on_value:
+                            und.append(('type-test', 'the typed read is guarded by a test of the stored value that is not `%s.is<%s>()`: %s'
+                                        % (DATA, T, '; '.join(show(c_) for c_ in on_value)[:200])))
+                            continue
+                        if others:
+                            why = ('the type test is made on the member(s) %s of the parameter, not on the stored value (`%s.is<%s>()`): what such a member '
+                                   'records (e.g. the static type setParam was called with) need not be the type the Any holds' % (others, DATA, T))
                     if deref_any and not nonnull:
                         probs.append(('null-deref', 'the result of findParam is dereferenced (`%s`) on a path where it may be null' % tu.show(deref_any[0].node)))
                     if qstores:
@@ -1246,8 +1298,13 @@ def check_paramobj(ctx, tu, tag=''):
                     if evs:
                         probs.append(('erase-when-missing', 'removeParam modifies the list (`%s`) although the name was not found' % tu.show(evs[0][2].node)))
                 else:
-                    if len(evs) != 1 or evs[0][1] != 'erase':
-                        probs.append(('not-erased', 'removeParam does not erase the found parameter (%d list operations)' % len(evs)))
+                    if not any(x[0] == 'member' and x[1] == 'erase' for x in evs):
+                        did = ', '.join('`%s`' % tu.show(x[2].node) for x in evs) or 'nothing'
+                        probs.append(('not-erased', 'removeParam leaves the found entry in the list (it does %s): the name stays stored - with its position '
+                                      'and its query flag - so a later setParam of that name gets the old entry back (already "queried", at the old '
+                                      'place in the iteration order) instead of a fresh parameter appended at the end' % did))
+                    elif len(evs) != 1:
+                        und.append(('not-erased', 'removeParam erases and also does %s' % ', '.join('`%s`' % tu.show(x[2].node) for x in evs if x[1] != 'erase')))
                     elif [unver(a) for a in evs[0][2].value] != [L]:
                         probs.append(('erase-not-found-iterator', 'removeParam erases `%s` instead of exactly the found iterator'
                                       % ', '.join(show(unver(a)) for a in evs[0][2].value)))
@@ -1274,6 +1331,7 @@ def check_paramobj(ctx, tu, tag=''):
         else:
             ctx.ok(R5, inst, '%d path(s) conform' % len(paths), loc)
     n5 += 1
+    report_search_defects(ctx, tu, se, R5, tag)
     check_aux_state(ctx, tu, se, seq, fns, r, finder, aux_names, aux_info, (DATA, QUERY, NAME), tag)
     return dict(n5=n5, counts=counts)
 
